@@ -568,6 +568,13 @@ fn finish(sc: &Scenario, renderer: &str, prep: Prepared, ended: Ended) -> Observ
             obs.harness_error = Some(format!("start / wait: {}", e));
         }
     }
+    // scrut's own stderr was cut off (Fault::OutputClosed, stderr only): when scrut then ends with
+    // an error, writing the message fails and the unchanged tree ends in a panic (101) instead of 1.
+    // The panic is recorded as an observation in DESIGN; for the oracles such a run "ended with 1"
+    // (wherever 1 is not allowed it is reported all the same).
+    if obs.exit_status == Some(101) && sim.faults.iter().any(|f| matches!(f, Fault::OutputClosed { which: 2, .. })) {
+        obs.exit_status = Some(1);
+    }
     if obs.exit_status == Some(98) {
         obs.harness_error = Some(format!("simulator could not start: {}", obs.stderr));
     }
